@@ -75,6 +75,10 @@ func optOf(tok, jail string, ctx context.Context) gtree.Option {
 		return gtree.WithFileExtensions([]string{"a"})
 	case "exts0":
 		return gtree.WithFileExtensions([]string{})
+	case "extsDup":
+		// a list with a repeated entry, and the SAME slice for every call of this process that uses it (a caller's
+		// package-level list): what one call does to it, the next one sees
+		return gtree.WithFileExtensions(sharedExtsDup)
 	case "targetA":
 		return gtree.WithTargetDir(filepath.Join(jail, "A"))
 	case "targetB":
@@ -100,6 +104,8 @@ func optOf(tok, jail string, ctx context.Context) gtree.Option {
 	}
 	panic("harness: unknown option token " + tok)
 }
+
+var sharedExtsDup = []string{".x", ".y", ".x"}
 
 func snapshot(dir string) []string {
 	var out []string
